@@ -18,3 +18,14 @@ package optimistichash
 //@   loop 0 invariant forall(k, 0, len(o.bridges), o.bridges[k].globalIndex != nil)
 //@   loop 0 invariant 0 <= rangeindex + 1 && rangeindex + 1 <= len(o.bridges) && off(combined) == 0 && len(combined) == 64 * (rangeindex + 1)
 //@   loop 0 invariant forall(A, []Bytes, forall(k, 0, len(o.bridges), A[2*k] == leB(absInt(bigval(o.bridges[k].globalIndex))) && A[2*k+1] == bytesOf(hb(o.bridges[k].bridgeExitHash), 32)) ==> bytesOf(seq(combined), len(combined)) == chainB(A, 2 * (rangeindex + 1)))
+
+// one entry per claim, in order, each carrying that claim's global index as stored (C19)
+//@ func (o *optimisticCommitImportedBrigeData) setBridgeExitHash
+//@   trusted
+//@   modifies o.bridgeExitHash
+//@ func newCommitImportedBrigesData
+//@   props C19
+//@   modifies heap
+//@   ensures[one-entry-per-claim-with-its-global-index] result != nil && len(result.bridges) == len(claims) && forall(k, 0, len(claims), result.bridges[k].globalIndex == claims[k].GlobalIndex)
+//@   loop 0 invariant 0 <= rangeindex + 1 && rangeindex + 1 <= len(claims) && len(res.bridges) == len(claims) && off(res.bridges) == 0 && fresh(ref(res.bridges))
+//@   loop 0 invariant forall(k, 0, rangeindex + 1, res.bridges[k].globalIndex == claims[k].GlobalIndex)
